@@ -6,6 +6,8 @@ operator over a byte image of the tensor arena - CPU operators under vv.tfref, e
 approximate class.  Each network is run on several inputs and with two different arena poison patterns (the outputs must not depend on the poison:
 C03 monitor 3).
 """
+import os
+
 import numpy as np
 
 from vv import artefact, campaign, fbr, npuexec, tfref, isa
@@ -25,7 +27,7 @@ def cfg_hook(rng, cfg, fam, i):
 
 def gen_cases(tier, seed):
     fams = ["exact-chain", "exact-dag", "approx-tail", "stripe-stress", "alias-stress", "buffer-stress", "exact-chain", "approx-tail", "cpu-mix", "lut-stress", "exact-chain-big", "shared-weights", "mixed-width", "strided-first"]
-    return campaign.gen_cases(tier, seed, 1, 330, 8000, families=fams, cfg_hook=cfg_hook, extra=[("shape-ops", 36, 800), ("approx-tail2", 24, 500), ("grouped-conv", 18, 400)])
+    return campaign.gen_cases(tier, seed, 1, 330, 8000, families=fams, cfg_hook=cfg_hook, extra=[("shape-ops", 36, 800), ("approx-tail2", 24, 500), ("grouped-conv", 18, 400), ("cpu-mix", 48, 800)])
 
 
 def rand_inputs(rng, sg, variant):
@@ -225,7 +227,14 @@ def run_case(case):
                     d = np.argwhere(got[0][name] != got[1][name])
                     pmech = "output-depends-on-arena-poison" + (":" + PACK_FEATURE if PACK_FEATURE in net_features(net) else "")
                     viol.setdefault(pmech, {"mech": pmech, "msg": "output %s differs between two arena poison patterns at %d positions (first %s): uninitialised or stale memory is consumed" % (name, len(d), d[0].tolist()), "witness": wit})
-            if tol is None:
+            if tol is None and klass == "cpu-mix" and not ref.approx_ops and os.environ.get("VV_C01_CPUMIX", "1") == "1":
+                # a CPU / Ethos-U mix in which the reference met no approximated operator: every operator is of the exact class (CPU operators run under the same
+                # reference in both models), so the outputs must agree bit for bit
+                tol_case, klass_case = 0, "exact"
+                counters["cpu_mix_networks_compared"] = counters.get("cpu_mix_networks_compared", 0) + (1 if variant == 0 else 0)
+            else:
+                tol_case, klass_case = tol, klass
+            if tol_case is None:
                 continue
             out_names = [t for t in want]
             for name in out_names:
@@ -235,13 +244,13 @@ def run_case(case):
                 w, g = want[name], got[0][name]
                 counters["outputs_compared"] += 1
                 counters["elements_compared"] += int(w.size)
-                counters["exact_outputs_compared" if klass == "exact" else "approx_outputs_compared"] += 1
+                counters["exact_outputs_compared" if klass_case == "exact" else "approx_outputs_compared"] += 1
                 if w.shape != g.shape:
                     viol.setdefault("output-shape", {"mech": "output-shape", "msg": "%s shape %s vs %s" % (name, w.shape, g.shape), "witness": wit})
                     continue
                 diff = np.abs(w - g)
                 alt = getattr(ref, "alt", {})
-                allowed = tol
+                allowed = tol_case
                 if diff.max(initial=0) > allowed:
                     # MUL has two reference derivations (float / double): accept the second one for a final MUL
                     ti = [t for t in ssg.outputs if ssg.tensors[t].name == name][0]
@@ -252,7 +261,7 @@ def run_case(case):
                     feats = net_features(net) + artefact_features(c.art) + stripe_features(log)
                     if diff.max() > 1 and "int16-conv-int32-bias" in feats:
                         feats.remove("int16-conv-int32-bias")  # single instead of double rounding explains one LSB only
-                    mech = "output-differs-from-source:%s:%s" % (klass, (net.info["family"].split(":")[-1] + ("+" + "+".join(feats) if feats else "")) if klass == "approx" else ("+".join(feats) if feats else "maxdiff>%d" % min(int(diff.max()), 3)))
+                    mech = "output-differs-from-source:%s:%s" % (klass_case, (net.info["family"].split(":")[-1] + ("+" + "+".join(feats) if feats else "")) if klass_case == "approx" else ("+".join(feats) if feats else "maxdiff>%d" % min(int(diff.max()), 3)))
                     viol.setdefault(mech, {"mech": mech, "msg": "%s: %d of %d elements differ by more than %d (max |diff| %d, first at %s: source %d compiled %d); input variant %d; ops %s" % (
                         name, len(bad), w.size, allowed, int(diff.max()), bad[0].tolist(), int(w[tuple(bad[0])]), int(g[tuple(bad[0])]), variant, kinds), "witness": dict(wit, variant=variant)})
         for k in list(counters):
